@@ -26,11 +26,13 @@ static uint64_t g_seq = 0;
 static long g_mainTicks = 0, g_allTicks = 0;
 static long long g_nodeCostNs = 1000;
 static int g_tickYield = 0;
+static int g_helperTickYield = 64;
 static long g_tickCnt[512];
 static double g_collisionP = 0;
 static vf::Rng g_faultRng(1, 7);
 static std::vector<long> g_allocFailAt; // ordinals of large allocations that fail
 static long g_largeAllocs = 0;
+static long g_maxTicks = 2000000;
 static bool g_ttYield = false;
 static int g_ttYieldEvery = 1;
 static long g_ttCnt = 0;
@@ -185,13 +187,15 @@ struct Gui : vsim::Actor {
         arm(tok);
         const std::string& k = tok[0];
         if (k == "wait_ms" || k == "wait_us") return vsim::now() >= untilT;
-        if (k == "wait_steps") return (long)vsim::stats().steps >= untilStep;
-        if (k == "wait_ticks") return g_allTicks >= untilTicks || g_out->bestmoves >= (long)gos.size();
+        // waits on progress measures fall through when the measured activity has stopped
+        if (k == "wait_steps") return (long)vsim::stats().steps >= untilStep || vsim::allParked();
+        bool engineIdle = vsim::isBlockedIdle(0) && vsim::isBlockedIdle(1) && g_in->queue.empty();
+        if (k == "wait_ticks") return g_allTicks >= untilTicks || g_out->bestmoves >= (long)gos.size() || engineIdle;
         if (k == "wait_bestmove") return g_out->bestmoves >= answerable();
         if (k == "wait_readyok") return g_out->readyoks >= isreadys;
         if (k == "wait_info") {
             long n = tok.size() > 1 ? atol(tok[1].c_str()) : 1;
-            return g_out->infosSinceGo >= n || g_out->bestmoves >= (long)gos.size();
+            return g_out->infosSinceGo >= n || g_out->bestmoves >= (long)gos.size() || engineIdle;
         }
         if (k == "wait_idle") return lastGoUnreleased() || (g_out->bestmoves >= answerable() && vsim::allParked());
         return true; // send, close, unknown
@@ -250,6 +254,7 @@ void configFromScenario(const vf::Scenario& sc, vsim::Config& cfg) {
     cfg.lateTimerMaxNs = sc.knobInt("late_max_ns", 0);
     cfg.clockReadCostNs = sc.knobInt("clock_cost_ns", 1000);
     cfg.maxSteps = (long)sc.knobInt("max_steps", 6000000);
+    cfg.starveLimit = (long)sc.knobInt("starve_limit", 40);
     for (const std::string& f : sc.faults) {
         std::vector<std::string> t = vf::splitWs(f);
         if (t.size() >= 4 && t[0] == "freeze")
@@ -275,9 +280,13 @@ void genSimKnobs(vf::Rng& r, vf::Scenario& sc, bool faults) {
         sc.set("pct_horizon", r.logRange(200, 60000));
     } else
         sc.set("strategy", vsim::ST_RTB);
+    { static const int sl[] = {12, 25, 25, 50}; sc.set("starve_limit", sl[r.below(4)]); }
     sc.set("clock_cost_ns", r.chance(0.1) ? r.logRange(1000, 2000000) : r.logRange(100, 20000));
     static const int ty[] = {0, 0, 1, 10, 100};
     sc.set("tick_yield", ty[r.below(5)]);
+    static const int hty[] = {1, 4, 16, 64, 64};
+    bool prio = sc.knobInt("strategy", 0) == vsim::ST_PCT || sc.knobInt("strategy", 0) == vsim::ST_RTB;
+    sc.set("helper_tick_yield", hty[r.below(prio ? 3 : 5)]);
     if (faults) {
         if (r.chance(0.5)) sc.setD("spurious_p", r.chance(0.5) ? 0.002 : 0.02);
         if (r.chance(0.3)) { sc.setD("late_p", 0.2); sc.set("late_max_ns", r.logRange(1000, 50000000)); }
@@ -298,6 +307,7 @@ void addStatsToResult(vf::Result& res) {
     res.counters["fault_late_timer"] = (long long)s.lateTimers;
     res.counters["fault_freeze"] = (long long)s.freezesFired;
     res.counters["fault_clock_jump"] = (long long)s.jumpsFired;
+    res.counters["starve_rescues"] = (long long)s.starveRescues;
     res.counters["threads_created"] = (long long)s.threadsCreated;
     res.counters["max_runnable"] = (long long)s.maxRunnable;
     res.counters["switch_pairs"] = vsim::countPairs();
@@ -315,18 +325,47 @@ void addStatsToResult(vf::Result& res) {
 }
 
 static vf::Result* g_res = nullptr;
-static void fatalHandler(const char* kind, const std::string& detail) {
+static Gui* g_gui = nullptr;
+static bool g_dump = false;
+void dumpTranscript() {
+    if (!H) return;
+    size_t i = 0, j = 0;
+    std::string all;
+    while (i < H->sent.size() || j < H->out.size()) {
+        bool takeSent = j >= H->out.size() || (i < H->sent.size() && H->sent[i].seqSent < H->out[j].seq);
+        if (takeSent) { all += "> [" + std::to_string(H->sent[i].seqSent) + "] " + H->sent[i].text + "\n"; i++; }
+        else { all += "< [" + std::to_string(H->out[j].seq) + " t" + std::to_string(H->out[j].tid) + " " + std::to_string(H->out[j].t / 1000) + "us] " + H->out[j].text + "\n"; j++; }
+    }
+    fprintf(stderr, "%s", all.c_str());
+}
+static void fatalHandler(const char* kind, const std::string& detail0) {
     vf::Result& res = *g_res;
     addStatsToResult(res);
     std::string k = kind;
+    std::string detail = detail0;
+    bool waitingBestmove = false, waitingReadyok = false;
     if (H) {
         res.counters["out_lines"] = (long long)H->out.size();
         res.counters["sent_lines"] = (long long)H->sent.size();
     }
-    if (k == "deadlock")
+    if (g_gui) {
+        std::string op = g_gui->pc < g_gui->ops.size() ? g_gui->ops[g_gui->pc] : "<end>";
+        waitingBestmove = op == "wait_bestmove" || op == "wait_idle";
+        waitingReadyok = op == "wait_readyok";
+        detail += " gui waits at op #" + std::to_string(g_gui->pc) + " '" + op + "' bestmoves=" + std::to_string(g_out->bestmoves) +
+                  " gos=" + std::to_string(g_gui->gos.size()) + " answerable=" + std::to_string(g_gui->answerable()) +
+                  " readyok=" + std::to_string(g_out->readyoks) + "/" + std::to_string(g_gui->isreadys);
+        if (!H->sent.empty()) detail += " last sent: '" + H->sent.back().text + "'";
+    }
+    if (k == "deadlock" && waitingBestmove)
+        res.violate("C05", "no-bestmove", "every thread is parked but a released search never delivered its bestmove; " + detail);
+    else if (k == "deadlock" && waitingReadyok)
+        res.violate("C05", "no-readyok", "every thread is parked but isready was never answered; " + detail);
+    else if (k == "deadlock")
         res.violate("C10", "deadlock", "simulator deadlock: no runnable thread, no timer; " + detail);
     else
         res.violate("C10", "step-budget", "step budget exhausted (hang or livelock); " + detail);
+    if (g_dump) dumpTranscript();
     vf::emitResultAndExit(res);
 }
 
@@ -342,6 +381,7 @@ void runSession(const vf::Scenario& sc, History& h, vf::Result& res) {
     memset(g_tickCnt, 0, sizeof g_tickCnt);
     g_nodeCostNs = sc.knobInt("node_cost_ns", 1000);
     g_tickYield = (int)sc.knobInt("tick_yield", 0);
+    g_helperTickYield = (int)sc.knobInt("helper_tick_yield", 64);
     g_collisionP = sc.knobDbl("collision_p", 0);
     g_ttYield = sc.knobInt("tt_yield", 0) != 0;
     g_ttYieldEvery = (int)std::max(1LL, sc.knobInt("tt_yield", 1));
@@ -352,6 +392,8 @@ void runSession(const vf::Scenario& sc, History& h, vf::Result& res) {
         std::vector<std::string> t = vf::splitWs(f);
         if (t.size() >= 2 && t[0] == "allocfail") g_allocFailAt.push_back(atol(t[1].c_str()));
     }
+    g_dump = sc.knobInt("dump", 0) != 0;
+    g_maxTicks = (long)sc.knobInt("max_ticks", 2000000);
     selectNet(sc.knobStr("net", "material"));
 
     vsim::Config cfg;
@@ -361,6 +403,7 @@ void runSession(const vf::Scenario& sc, History& h, vf::Result& res) {
     g_out = &out;
     g_in = &in;
     Gui gui;
+    g_gui = &gui;
     gui.ops = sc.ops;
     std::streambuf* oldOut = std::cout.rdbuf(&out);
     std::streambuf* oldIn = std::cin.rdbuf(&in);
@@ -373,6 +416,7 @@ void runSession(const vf::Scenario& sc, History& h, vf::Result& res) {
     UCIProtocol::main(false);
 
     h.mainReturned = true;
+    if (g_dump) dumpTranscript();
     h.threadsAllDone = vsim::allOthersDone();
     h.partialLine = out.cur;
     std::cout.rdbuf(oldOut);
@@ -400,6 +444,8 @@ extern "C" {
 void verif_node_tick(int threadNo, int site) {
     if (!vsim::active() || !H) return;
     int me = vsim::self();
+    if (g_allTicks > g_maxTicks || H->helperTicks > 5 * g_maxTicks)
+        vsim::fatalExternal("budget", "node budget exhausted: engine ticks " + std::to_string(g_allTicks) + " helper ticks " + std::to_string(H->helperTicks));
     if (vsim::role(me) == vsim::R_ENGINE) {
         vsim::advance(g_nodeCostNs);
         g_allTicks++;
@@ -409,10 +455,15 @@ void verif_node_tick(int threadNo, int site) {
         }
         long long d = vsim::nextDeadline();
         if (d >= 0 && d <= vsim::now()) { vsim::yield(vsim::S_TICK); return; }
-    } else
+        if (g_tickYield > 0 && (++g_tickCnt[0] % g_tickYield) == 0)
+            vsim::yield(vsim::S_TICK);
+    } else {
+        // helpers never advance the clock; their slices are kept short so that a low-priority engine thread is not
+        // starved for thousands of nodes per sim point
         H->helperTicks++;
-    if (g_tickYield > 0 && (++g_tickCnt[me & 511] % g_tickYield) == 0)
-        vsim::yield(vsim::S_TICK);
+        if (g_helperTickYield > 0 && (++g_tickCnt[me & 511] % g_helperTickYield) == 0)
+            vsim::yield(vsim::S_TICK);
+    }
 }
 
 void verif_time_limit(long long minT, long long maxT, int early, long long start) {
@@ -477,7 +528,8 @@ void verif_eval(const void* pos, int whiteContempt, int score, int fromCache) {
 // Allocation-failure injection for large requests (the transposition table).
 void* __real_malloc(size_t);
 void* __wrap_malloc(size_t n) {
-    if (n >= 256 * 1024 && vsim::active() && H) {
+    // only the transposition table's AlignedAllocator requests (entries*16 + 72 bytes) are failed
+    if (n >= 8192 + 72 && ((n - 72) % 8192) == 0 && vsim::active() && H) {
         long ord = ++g_largeAllocs;
         for (long f : g_allocFailAt)
             if (f == ord) { H->allocFailures++; return nullptr; }
